@@ -24,7 +24,7 @@ RULE = (
 )
 ASSUMPTIONS = [
     "equality: identical snapshots must be equal; a change of name, type, label, count, or of a timestamp by more than 1e-6 relative must be unequal; smaller perturbations may go either way (D13)",
-    "invertIntervalList is judged for disjoint intervals inside the bounds; intervalOverlapCheck with at most one of the percent/time thresholds",
+    "invertIntervalList is judged for disjoint intervals inside the bounds; intervalOverlapCheck: each threshold that is given must be met (both, when both are given)",
     "fuzzy sample lookup: any row minimising |time - t| is accepted (ties), float-tie tolerance 4 ulp",
 ]
 EXHAUSTIVE = {"quick": False, "thorough": False}
@@ -276,7 +276,7 @@ def _ioc_pre(ctx):
         a, b = tuple(a)[:2], tuple(b)[:2]
     except TypeError:
         return SKIP
-    if not all(num(x) for x in a + b) or not (a[0] < a[1] and b[0] < b[1]) or not (num(pct) and num(tt)) or pct < 0 or tt < 0 or (pct > 0 and tt > 0):
+    if not all(num(x) for x in a + b) or not (a[0] < a[1] and b[0] < b[1]) or not (num(pct) and num(tt)) or pct < 0 or tt < 0:
         REC.skip("q.intervalOverlapCheck", "outside-domain")
         return SKIP
     return (a, b, pct, tt, bool(incl))
@@ -287,14 +287,16 @@ def _ioc_post(ctx):
     ov = max(F(0), min(F(a[1]), F(b[1])) - max(F(a[0]), F(b[0])))
     exp = ov > 0
     band = False
+    # each threshold, when given, is a further condition on an overlap that exists ("if the intervals overlap, they must overlap
+    # by at least this threshold"); given together, both have to be met
     if exp and pct > 0:
         total = max(F(a[1]), F(b[1])) - min(F(a[0]), F(b[0]))
         ratio = ov / total
         band = abs(ratio - F(pct)) <= F(1, 10 ** 12)
         exp = ratio >= F(pct)
-    if exp and tt > 0:
-        band = abs(ov - F(tt)) <= F(math.ulp(max(abs(x) for x in a + b))) * 4
-        exp = ov >= F(tt)
+    if ov > 0 and tt > 0:
+        band = band or abs(ov - F(tt)) <= F(math.ulp(max(abs(x) for x in a + b))) * 4
+        exp = exp and ov >= F(tt)
     if incl and (a[0] == b[1] or a[1] == b[0]):
         exp, band = True, False
     case = {"call": "intervalOverlapCheck", "a": list(a), "b": list(b), "pct": pct, "tt": tt, "incl": incl}
@@ -652,6 +654,7 @@ def _workload(tier, rng, shard, nshards):
             thr = [(0, 0)]
             if ov > 0:
                 thr += [(0, ov), (0, ov / 2), (0, ov + 0.5), (0, ov + 1.0), (0, tot), (ov / tot, 0), (ov / tot / 2, 0), (min(1.0, ov / tot + 0.125), 0), (1.0, 0)]
+                thr += [(ov / tot / 2, ov / 2), (ov / tot / 2, ov + 0.5), (min(1.0, ov / tot + 0.125), ov / 2), (min(1.0, ov / tot + 0.125), ov + 0.5)]  # both given
             else:
                 thr += [(0, 0.5), (0.25, 0)]
             for pct, tt in thr:
